@@ -2,6 +2,7 @@
 // Oracle: physical E-term VNA model (vnamodel.hpp); standards through every entry point.
 #include "pbt.hpp"
 #include "calscen.hpp"
+#include "calverify.hpp"
 
 const char *PBT_PROPERTY = "C01";
 using namespace pbt;
@@ -75,6 +76,20 @@ void pbt_property(Ctx &c) {
     PBT_CHECK(c, run.log.n_nonwarning() == 0, "C01.solve_callback", "solve succeeded but error callback fired: %s", run.log.text().c_str());
     int ci = vnacal_add_calibration(run.vcp, "cal", run.vnp);
     PBT_CHECK(c, ci >= 0, "C01.add_calibration", "vnacal_add_calibration failed: %s", run.log.text().c_str());
+    // clause (iii): the saved error terms satisfy the documented M/S equation for every added standard
+    // (decides the shapes apply refuses; cross-checks the others)
+    if (!run.apply_supported() || c.chance(1, 4)) {
+        calfile::File file; std::string err;
+        PBT_CHECK(c, save_and_read(c, run.vcp, file, err), "C01.save_unreadable", "saved calibration file not readable by the independent reader: %s (%s)", err.c_str(), run.log.text().c_str());
+        PBT_CHECK(c, file.cals.size() == 1 && file.cals[0].type == vm::tname(sc.type) && file.cals[0].rows == sc.r && file.cals[0].cols == sc.c && file.cals[0].F == sc.F, "C01.save_header", "saved calibration has the wrong type/dimensions");
+        for (int f = 0; f < sc.F; f++) {
+            std::string why; long double res = saved_terms_residual(sc, file.cals[0], f, why);
+            PBT_CHECK(c, why.empty(), "C01.saved_terms_structure", "f%d: %s", f, why.c_str());
+            c.track_max("saved-terms residual/(eps*kappa*10)", (double)(res / (EPS * kappa * 10)));
+            PBT_CHECK(c, res <= CTOL * EPS * kappa * 10, "C01.saved_terms_equation", "%s %dx%d f%d: saved error terms violate the documented M/S equation: relative residual %.3Lg (bound %.3Lg, kappa %.3Lg)", vm::tname(sc.type), sc.r, sc.c, f, res, CTOL * EPS * kappa * 10, kappa);
+        }
+        c.label("saved-terms-checked");
+    }
     if (!run.apply_supported()) { c.label("apply:unsupported-shape"); return; }
     std::vector<Mat> out;
     run.log.clear();
